@@ -42,6 +42,15 @@ is counted in ``rules``):
                   fed meanwhile (tests/test_streams.py::test_readany_does_not_drain_reentrant_refill).
   P-read-nowait-empty  read_nowait returns b"" on an empty buffer also before EOF (docs: "empty bytes object
                   otherwise").
+  G-unread-piece  unread_data(data) "inserts data to the buffer head" (docstring): the bytes come first and count as
+                  buffered; the chunk-end positions keep their distance from the bytes behind them
+                  (tests/test_streams.py::test_readchunk_with_unread); it neither pauses/resumes nor (necessarily) wakes a
+                  waiting reader (nothing documented; a reader that is observed to continue is judged like a released
+                  one).  Whether the pushed-back bytes later come back as a portion of their own or joined with the
+                  portion(s) behind them is left open: readchunk on a stream without pending chunk ends may return
+                  either, and P-linetoolong may give up at the end of the joined portion (more bytes discarded, same
+                  outcome; decided by the observed buffered byte count) (*both accepted*).  Data that are exactly the stream bytes before the consumer position are a *rollback*:
+                  position-coded provenance and final conservation stay in force.
   G-empty-chunk   an HTTP chunk that contributed no bytes (possible with compression,
                   tests/test_streams.py::test_read_empty_chunks) ends where its predecessor ended; whether
                   that end is reported a second time is left open (*optional* boundary: both outcomes accepted).
@@ -58,7 +67,7 @@ STOP = ("stop",)
 class Call:
     __slots__ = (
         "kind", "n", "sep", "acc", "need", "started", "released", "fail", "exc_after_release",
-        "max_size", "straddle", "result", "extendable", "consumed", "optional_used",
+        "max_size", "straddle", "result", "extendable", "consumed", "optional_used", "parked", "pure",
     )
 
     def __init__(self, kind, n=None, sep=None):
@@ -77,6 +86,8 @@ class Call:
         self.extendable = False
         self.consumed = 0
         self.optional_used = False
+        self.parked = False  # unread_data() put bytes in front of this call while it was waiting (nothing wakes it for that)
+        self.pure = None  # unread: whether the data were the stream bytes just before the consumer position
 
     def describe(self):
         d = {"kind": self.kind}
@@ -109,7 +120,11 @@ class RefStream:
         self.call: Call | None = None
         self.paused = False  # expected pause state; None = not determined (see G-empty-chunk / re-entrancy)
         self.rules: dict = {}
-        self.unread_used = False
+        self.unread_used = False  # unread_data() inserted bytes that are not a rollback of the stream (see unread())
+        self.head_pure = True  # everything in `head` is stream[pos-len(head):pos]
+        self.pushed = 0  # number of leading entries of `pieces` that were put there by unread_data
+        self.hint_buffered = None  # observed buffered byte count after a LineTooLong (consulted by G-unread-piece only)
+        self.rollbacks = 0
         self.discarded = 0  # bytes dropped by LineTooLong (P-linetoolong)
 
     # ------------------------------------------------------------------------------------------
@@ -200,12 +215,33 @@ class RefStream:
             else:
                 c.exc_after_release = True
 
-    def unread(self, data: bytes):
+    def unread(self, data: bytes, waiting: Call | None = None) -> bool:
+        """unread_data(data): "rollback reading some data from stream, inserting it to buffer head" - the bytes go in
+        front of everything buffered and the consumer position (for chunk ends) steps back by len(data); sizes count
+        them; nothing is said about pausing or about waking a reader (`waiting`: the call that is blocked right now).
+        Returns whether the data are a *rollback* (exactly the stream bytes before the consumer position), in which
+        case position-coded provenance stays valid."""
         if not data:
-            return
-        self.unread_used = True
+            return True
+        cursor = self.pos - len(self.head)
+        k = len(data)
+        pure = (
+            waiting is None
+            and (not self.head or self.head_pure)
+            and cursor >= k
+            and self.content(cursor - k, cursor) == data
+        )
+        if pure:
+            self.rollbacks += 1
+        else:
+            self.unread_used = True
+        self.head_pure = pure
         self.head = data + self.head
-        self.pieces.appendleft(len(data))
+        self.pieces.appendleft(k)
+        self.pushed += 1
+        if waiting is not None and waiting.fail is None and waiting.released is not True:
+            waiting.parked = True
+        return pure
 
     def raise_marks(self, n: int):
         if n > self.low:
@@ -236,6 +272,8 @@ class RefStream:
             out = self.content(self.pos, self.pos + k)
             self.pos += k
         assert len(out) == k, (len(out), k)
+        if not self.head:
+            self.head_pure = True
         r = k
         pcs = self.pieces
         while r:
@@ -243,6 +281,8 @@ class RefStream:
             if p0 <= r:
                 pcs.popleft()
                 r -= p0
+                if self.pushed:
+                    self.pushed -= 1
             else:
                 pcs[0] = p0 - r
                 r = 0
@@ -285,6 +325,12 @@ class RefStream:
         outcomes open."""
         if call.fail is not None:
             return self._exc()
+        if call.parked and call.released is not True and obs is None:
+            # bytes were pushed back while this call was waiting and no arrival / chunk end / eof has released it since:
+            # the contract does not promise a wake-up for unread_data (and does not forbid one: with an observation the
+            # call is judged on the buffered data like any released call)
+            self.rule("unread-while-reader-waits:still-waiting")
+            return BLOCKED
         if call.exc_after_release and obs is not None:
             # the reader was released (data / chunk end / eof) before the exception arrived and had not run yet:
             # completing on the data path and raising the exception are both acceptable orders
@@ -314,12 +360,13 @@ class RefStream:
 
     def _advance(self, call: Call, obs=None):
         kind = call.kind
+        call.parked = False
         if not call.started:
             call.started = True
             if kind == "iter_chunked":
                 self.raise_marks(call.n)
             if kind == "unread":
-                self.unread(call.sep)
+                call.pure = self.unread(call.sep)
                 return ("done", None)
             if self.exc is not None:
                 return self._exc()
@@ -404,6 +451,7 @@ class RefStream:
         pcs = self.pieces
         while pcs:
             plen = pcs[0]
+            soft = self.pushed > 0  # a pushed-back piece: it may have been joined with what follows (G-unread-piece)
             data = self.peek(plen)
             tail = call.acc[-(sl - 1):] if sl > 1 and call.acc else b""
             j = (tail + data).find(sep)
@@ -415,6 +463,8 @@ class RefStream:
             else:
                 call.acc += self.take(plen, call)
             if len(call.acc) > call.max_size:
+                if soft and not found:
+                    self._linetoolong_joined(call)
                 self.rule("P-linetoolong")
                 self.discarded += len(call.acc)
                 return ("raise", "linetoolong", None)
@@ -427,6 +477,37 @@ class RefStream:
                 return STOP
             return ("done", call.acc)
         return BLOCKED
+
+    def _linetoolong_joined(self, call):
+        """P-linetoolong gives up at the end of the received piece that took the line over the limit.  When that piece
+        is one pushed back by unread_data, the stream may hold it joined with the portion(s) behind it and then gives
+        up later (at the separator or at the end of the joined portion): same outcome, more bytes discarded.  Which
+        of the permitted amounts it was is read off the observed buffered byte count."""
+        hint = self.hint_buffered
+        if hint is None or self.buffered == hint:
+            return
+        sep = call.sep
+        sl = len(sep)
+        tail = call.acc[-(sl - 1):] if sl > 1 else b""
+        extra = 0
+        cands = []
+        for i, plen in enumerate(self.pieces):
+            seg = self.peek(extra + plen)[extra:]
+            j = (tail + seg).find(sep)
+            if j >= 0:
+                cands.append(extra + j + sl - len(tail))
+                break
+            extra += plen
+            cands.append(extra)
+            if sl > 1:
+                tail = (tail + seg)[-(sl - 1):]
+            if i >= self.pushed:
+                break  # the end of a piece that was received, not pushed back, is where any joined portion ends
+        for e in cands:
+            if e > 0 and self.buffered - e == hint:
+                call.acc += self.take(e, call)
+                self.rule("G-unread-piece:linetoolong-at-end-of-joined-portion")
+                return
 
     _adv_readline = _adv_readuntil
     _adv_iter_line = _adv_readuntil
@@ -456,7 +537,21 @@ class RefStream:
             call.result = (self.take(k, call), True)
             return ("done", call.result)
         if self.buffered:
-            call.result = (self.take(self.pieces[0], call), False)
+            k = self.pieces[0]
+            if self.pushed and obs is not None and obs[0] == "done" and isinstance(obs[1], tuple) and obs[1][1] is False:
+                # G-unread-piece: pushed-back bytes may come back joined with the portion(s) behind them
+                got = obs[1][0]
+                tot = 0
+                for i, p in enumerate(self.pieces):
+                    if i > self.pushed:
+                        break
+                    tot += p
+                    if tot >= len(got):
+                        if i and tot == len(got) and self.peek(tot) == got:
+                            k = tot
+                            self.rule("G-unread-piece:joined-with-following-portion")
+                        break
+            call.result = (self.take(k, call), False)
             return ("done", call.result)
         if self.eof:
             return ("done", (b"", False)) if call.kind == "readchunk" else STOP
